@@ -21,7 +21,7 @@ Qed.
 
 Definition refuted (k : Z) : Prop :=
   exists ncols t q rows,
-    known_class_case ncols q t = k /\ model_query ncols q t = MRows rows /\ ~ query_spec ncols q t rows.
+    known_class_q ncols q = k /\ model_query ncols q t = MRows rows /\ ~ query_spec ncols q t rows.
 
 (* t(id, c1 BIGINT, c2 TEXT) = (1,3,'b') (2,NULL,'a') (3,1,'b') (4,3,NULL) (5,2,'a') *)
 Definition wt : table :=
@@ -49,35 +49,54 @@ Proof. refute 3%nat wt (mkQ false (SelList [SI 0 false]) None [(KCol 1 false, tr
 (* 2: SELECT id, c1 FROM t ORDER BY 2 *)
 Lemma class2_refuted : refuted 2.
 Proof. refute 3%nat wt (mkQ false (SelList [SI 0 false; SI 1 false]) None [(KExpr (XInt 2), true)] None None). Qed.
-(* 3: SELECT id, c1 FROM t ORDER BY (-c1) *)
+(* 3: SELECT id, c1 FROM t ORDER BY ABS(c1) *)
 Lemma class3_refuted : refuted 3.
-Proof. refute 3%nat wt (mkQ false (SelList [SI 0 false; SI 1 false]) None [(KExpr (XNeg (XCol 1)), true)] None None). Qed.
-(* 4: SELECT DISTINCT c1 FROM t ORDER BY c1 DESC LIMIT 2 *)
-Lemma class4_refuted : refuted 4.
-Proof. refute 3%nat wt (mkQ true (SelList [SI 1 false]) None [(KCol 1 false, false)] (Some 2) None). Qed.
-(* 5: SELECT DISTINCT c1 FROM t *)
-Lemma class5_refuted : refuted 5.
-Proof. refute 3%nat wt (mkQ true (SelList [SI 1 false]) None [] None None). Qed.
+Proof. refute 3%nat wt (mkQ false (SelList [SI 0 false; SI 1 false]) None [(KExpr (XAbs (XCol 1)), true)] None None). Qed.
 (* 6: SELECT * FROM t ORDER BY (c1 + 1) *)
 Lemma class6_refuted : refuted 6.
 Proof. refute 3%nat wt (mkQ false SelStar None [(KExpr (XBin AAdd (XCol 1) (XInt 1)), true)] None None). Qed.
-(* 7: SELECT DISTINCT c1 FROM t WHERE id > 0 over 0.0, -0.0, 1.5 *)
-Lemma class7_refuted : refuted 7.
-Proof. refute 2%nat wz (mkQ true (SelList [SI 1 false]) (Some 0) [] None None). Qed.
 
-Lemma known_classes_refuted_l :
-  refuted 1 /\ refuted 2 /\ refuted 3 /\ refuted 4 /\ refuted 5 /\ refuted 6 /\ refuted 7.
+Lemma known_classes_refuted_l : refuted 1 /\ refuted 2 /\ refuted 3 /\ refuted 6.
+Proof. repeat split; [apply class1_refuted|apply class2_refuted|apply class3_refuted|apply class6_refuted]. Qed.
+
+(* HISTORICAL: the witnesses of the classes repaired in /repo (unary minus in a key 64df99f,
+   DISTINCT before LIMIT d679a09, column list projected once 84a97fb, DISTINCT 0.0 / -0.0 2ad4719).
+   On the model of the repaired code they are in class 0 and answered correctly. *)
+Definition now_correct (ncols : nat) (t : table) (q : query) : Prop :=
+  known_class_q ncols q = 0 /\
+  exists rows B, model_query ncols q t = MRows rows /\ spec_elts ncols q t = Some B /\
+                 result_defined (q_dirs q) (q_distinct q) B = true /\
+                 result_chk (q_dirs q) (q_distinct q) B (q_off q) (q_lim q) rows = true.
+Ltac correct nc t q :=
+  split; [vm_compute; reflexivity|];
+  let r := eval vm_compute in (model_query nc q t) in
+  let b := eval vm_compute in (spec_elts nc q t) in
+  match r with MRows ?rows => match b with Some ?B =>
+    exists rows, B; repeat split; vm_compute; reflexivity end end.
+
+Lemma repaired_witnesses_correct_l :
+  (* ORDER BY (-c1) *)
+  now_correct 3 wt (mkQ false (SelList [SI 0 false; SI 1 false]) None [(KExpr (XNeg (XCol 1)), true)] None None) /\
+  (* SELECT DISTINCT c1 FROM t ORDER BY c1 DESC LIMIT 2 *)
+  now_correct 3 wt (mkQ true (SelList [SI 1 false]) None [(KCol 1 false, false)] (Some 2) None) /\
+  (* SELECT DISTINCT c1 FROM t *)
+  now_correct 3 wt (mkQ true (SelList [SI 1 false]) None [] None None) /\
+  (* SELECT DISTINCT c1 FROM t WHERE id > 0 over 0.0, -0.0, 1.5 *)
+  now_correct 2 wz (mkQ true (SelList [SI 1 false]) (Some 0) [] None None).
 Proof.
-  repeat split; [apply class1_refuted|apply class2_refuted|apply class3_refuted|apply class4_refuted|
-                 apply class5_refuted|apply class6_refuted|apply class7_refuted].
+  split; [|split; [|split]].
+  - correct 3%nat wt (mkQ false (SelList [SI 0 false; SI 1 false]) None [(KExpr (XNeg (XCol 1)), true)] None None).
+  - correct 3%nat wt (mkQ true (SelList [SI 1 false]) None [(KCol 1 false, false)] (Some 2) None).
+  - correct 3%nat wt (mkQ true (SelList [SI 1 false]) None [] None None).
+  - correct 2%nat wz (mkQ true (SelList [SI 1 false]) (Some 0) [] None None).
 Qed.
 
 (* non-vacuity of the end-to-end theorem: queries in class 0 on which something has to be done *)
 Example class0_examples :
-  known_class_case 3 (mkQ false (SelList [SI 0 false; SI 1 false]) None [(KCol 1 false, false); (KCol 0 false, true)] (Some 3) (Some 1)) wt = 0 /\
+  known_class_q 3 (mkQ false (SelList [SI 0 false; SI 1 false]) None [(KCol 1 false, false); (KCol 0 false, true)] (Some 3) (Some 1)) = 0 /\
   model_query 3 (mkQ false (SelList [SI 0 false; SI 1 false]) None [(KCol 1 false, false); (KCol 0 false, true)] (Some 3) (Some 1)) wt
     = MRows [[VInt 4; VInt 3]; [VInt 5; VInt 2]; [VInt 3; VInt 1]] /\
-  known_class_case 3 (mkQ true (SelList [SI 2 false; SI 1 true]) None [(KCol 2 false, true); (KAlias 1, true)] None None) wt = 0 /\
-  model_query 3 (mkQ true (SelList [SI 2 false; SI 1 true]) None [(KCol 2 false, true); (KAlias 1, true)] None None) wt
-    = MRows [[VNull; VInt 3]; [VText [97]; VNull]; [VText [97]; VInt 2]; [VText [98]; VInt 1]; [VText [98]; VInt 3]].
+  known_class_q 3 (mkQ true (SelList [SI 2 false; SI 1 true]) None [(KCol 2 false, true); (KAlias 1, true)] (Some 3) (Some 1)) = 0 /\
+  model_query 3 (mkQ true (SelList [SI 2 false; SI 1 true]) None [(KCol 2 false, true); (KAlias 1, true)] (Some 3) (Some 1)) wt
+    = MRows [[VText [97]; VNull]; [VText [97]; VInt 2]; [VText [98]; VInt 1]].
 Proof. vm_compute. repeat split. Qed.
